@@ -30,3 +30,14 @@
 (declare-fun node_pfx_ns (Iface String) String)   ; YangPrefixToNamespace(prefix): namespace a prefix denotes for this statement
 (declare-fun node_pfx_err (Iface String) Iface)
 (declare-fun node_path (Iface) String)            ; Path(): argument of the path substatement
+; ---- features (C14). feat_on(checker, "module:feature"): the configured state of a feature as the compiler's
+; FeaturesChecker reports it; ref_mod / ref_node: the module and the definition a reference statement (if-feature,
+; base, ...) resolves to from within module m (getModuleAndReference); node_nchildren_of / node_child_of: the
+; substatements of one kind, by position. feat_valid is the property's relation: a feature holds iff it is switched
+; on and every feature it depends on (if-feature, resolved in the module of EACH definition) holds.
+(declare-fun feat_on (Iface String) Bool)
+(declare-fun ref_mod (Iface Iface Int) Iface)
+(declare-fun ref_node (Iface Iface Int) Iface)
+(declare-fun node_nchildren_of (Iface Int) Int)
+(declare-fun node_child_of (Iface Int Int) Iface)
+(declare-fun feat_valid (Iface Iface Iface) Bool)
